@@ -13,6 +13,10 @@ package scheduling
 // toleratedBy: some of the first n tolerations tolerates taint x.
 //@ pure toleratedBy(tols []corev1.Toleration, n int, x *corev1.Taint) bool = exists j int {tols[j]} :: 0 <= j && j < n && k8sTolerates(&tols[j], x)
 
+// ASSUMPTIONS (listed in the evidence; they stand in for the missing engine stub of the external, side-effect-free
+// k8s.io/api/core/v1 (*Toleration).ToleratesTaint): [rule] its answer is k8sTolerates(receiver, taint); [pureTaint]
+// [pureToleration] [pureCells] [pureLogger] it writes nothing (without them every Taint / Toleration / Logger field and
+// every integer / interface cell counts as arbitrary after the call, including the receiver's own taints).
 // Tolerates: no error exactly when EVERY taint (of every effect, PreferNoSchedule included: stricter than the
 // scheduler, which ignores PreferNoSchedule) is tolerated by some toleration under the Kubernetes rule.
 //@ func (Taints).Tolerates
